@@ -17,7 +17,14 @@ import (
 	"golang.org/x/tools/go/ssa/ssautil"
 )
 
-const repoDir = "/repo"
+// repoDir is the tree under check. Registered commands always use /repo; GOSMT_REPO lets a
+// development run point the same machinery at a scratch worktree (seeded changes) instead.
+var repoDir = func() string {
+	if d := os.Getenv("GOSMT_REPO"); d != "" {
+		return d
+	}
+	return "/repo"
+}()
 
 var verifDir = "/verif"
 
